@@ -456,3 +456,30 @@ pub fn runs_agree(i: &RunRec, m: &RunRec) -> bool {
         _ => i.output == m.output,
     }
 }
+
+/// numeric comparison of two outputs line by line: equal text, or numbers within `ulps` units in the last place
+pub fn outputs_close(a: &str, b: &str, ulps: u64) -> bool {
+    let la: Vec<&str> = a.split('\n').collect();
+    let lb: Vec<&str> = b.split('\n').collect();
+    if la.len() != lb.len() {
+        return false;
+    }
+    la.iter().zip(lb.iter()).all(|(x, y)| {
+        if x == y {
+            return true;
+        }
+        match (x.parse::<f64>(), y.parse::<f64>()) {
+            (Ok(p), Ok(q)) => {
+                if p.is_nan() && q.is_nan() {
+                    return true;
+                }
+                if p.is_sign_negative() != q.is_sign_negative() || !p.is_finite() || !q.is_finite() {
+                    return p == q;
+                }
+                let d = (p.to_bits() as i128 - q.to_bits() as i128).unsigned_abs();
+                d <= ulps as u128
+            }
+            _ => false,
+        }
+    })
+}
